@@ -33,9 +33,14 @@ inductive Prov where
   | num
 deriving Repr, BEq, DecidableEq, Inhabited
 
+/-- a generated token.  `abs` and `mem` tokens are *fused with their anchor*: `pre` is the token that is printed directly
+in front (`::`, `.`, `fn`, `type`), `post` the one directly behind (`=` of an associated-type binding) — so that an
+absolute-path segment or a member name cannot be written without its anchor -/
 structure GTok where
   s : String
   p : Prov := .lit
+  pre : String := ""
+  post : String := ""
 deriving Repr, BEq, DecidableEq, Inhabited
 
 abbrev GToks := List GTok
@@ -54,11 +59,23 @@ infixl:65 " +++ " => gapp
 /-- tokens copied from the input -/
 def U (ts : Toks) : GToks := ts.map fun s => { s, p := .user }
 def u (s : String) : GTok := { s, p := .user }
-/-- a member name -/
-def mem (s : String) : GTok := { s, p := .mem }
-def GToks.strs (ts : GToks) : Toks := ts.map (·.s)
+/-- member names, each with its anchor: `fn name`, `type Name`, `.name`, `::name`, `Name =` -/
+def fnM (s : String) : GTok := { s, p := .mem, pre := "fn" }
+def typeM (s : String) : GTok := { s, p := .mem, pre := "type" }
+def dotM (s : String) : GTok := { s, p := .mem, pre := "." }
+def pathM (s : String) : GTok := { s, p := .mem, pre := "::" }
+def bindM (s : String) : GTok := { s, p := .mem, post := "=" }
+/-- the strings a generated token prints as -/
+def GTok.strs (t : GTok) : Toks :=
+  (if t.pre == "" then [] else [t.pre]) ++ [t.s] ++ (if t.post == "" then [] else [t.post])
+def GToks.strs (ts : GToks) : Toks := ts.flatMap GTok.strs
 @[simp] theorem strs_U (ts : Toks) : (U ts).strs = ts := by
-  simp [U, GToks.strs, List.map_map, Function.comp_def]
+  induction ts with
+  | nil => rfl
+  | cons t ts ih =>
+    simp only [U, GToks.strs, List.map_cons, List.flatMap_cons] at ih ⊢
+    rw [ih]
+    rfl
 
 class OfStr (τ : Type) where
   ofStr : String → τ
@@ -88,7 +105,7 @@ def attrToks (inner : List τ) : List τ := (§"#") :: bracket inner
 end
 
 /-- `::a::b::c` — the only producer of `abs` tokens -/
-def absPath (segs : List String) : GToks := segs.flatMap (fun s => [("::" : GTok), { s, p := .abs }])
+def absPath (segs : List String) : GToks := segs.map (fun s => { s, p := .abs, pre := "::" })
 
 /-- `<i>usize` — the only producer of `num` tokens -/
 def idxLit (i : Nat) : GTok := { s := toString i ++ "usize", p := .num }
